@@ -35,6 +35,7 @@ var extractors = []extractor{
 	{"RespFacts", genRespFacts},
 	{"WriterFacts", genWriterFacts},
 	{"ClientCfg", genClientCfg},
+	{"DescIter", genDescIter},
 }
 
 func main() {
